@@ -43,10 +43,13 @@ def run_cases(cases, timeout=3000):
             head, outhex = m.split("\t")
             _, cnt, doc = head.split(" ", 2)
             d["model"] = "ok"
-            cnt, wfc, size = (cnt.split(":") + ["1", "0"])[:3]
+            cnt, wfc, size, swfc = (cnt.split(":") + ["1", "0", "1"])[:4]
             d["model_doc"], d["model_out"], d["model_cnt"] = doc, unhex(outhex), int(cnt)
-            d["model_wfc"], d["model_size"] = (wfc == "1"), int(size)
+            d["model_wfc"], d["model_size"], d["model_swfc"] = (wfc == "1"), int(size), (swfc == "1")
         else:
+            if " swfc=" in m:
+                m, sw = m.rsplit(" swfc=", 1)
+                d["model_swfc"] = (sw.strip() == "1")
             d["model"] = m
         d["class_eq"] = (d["impl"] == d["model"].split()[0])
         if d["impl"] == "ok" and d["model"] == "ok":
